@@ -7,6 +7,7 @@ C07 — The reported hand category is the category of the best five-card hand.
 -/
 import EspadaVerif.Model.Eval
 import EspadaVerif.Spec.Poker
+import EspadaVerif.Props.C01Compare
 
 namespace EspadaVerif.C07
 open EspadaVerif
@@ -27,6 +28,14 @@ theorem C07_intervals (i : Nat) (h1 : 1 ≤ i) (h2 : i ≤ 7462) : handType i = 
     Spec.catTrips, Spec.catTwoPair, Spec.catPair, Spec.catHighCard, e, decide_eq_true_eq]
   rcases hcase with h | h | h | h | h | h | h | h | h
   all_goals (repeat' (first | rw [if_pos (by omega)] | rw [if_neg (by omega)]))
+
+/-- **C07.** For any seven distinct cards the reported category is the rule-book category of the
+strongest five-card hand among them. -/
+theorem C07 (cs : List Card) (h : C01.Seven cs) (i : Nat) (e : eval7 cs = .ok i) :
+    handType i = Spec.categoryOfStrength (Spec.bestStrength (cs.map C01.toSpec)) := by
+  obtain ⟨h1, h2⟩ := C01.C01_index_range cs h i e
+  obtain ⟨S, _, _, hstr, hcat⟩ := C01.C01_best_is_strongest cs h i e
+  rw [C07_intervals i h1 h2, hcat, hstr]
 
 /-- boundary witnesses: the weakest hand of each category keeps its category -/
 example : handType 10 = Spec.catStraightFlush ∧ handType 166 = Spec.catQuads ∧ handType 322 = Spec.catFullHouse
